@@ -409,6 +409,8 @@ func (h6) Decode(raw json.RawMessage) (any, error) {
 	return &c, err
 }
 
+func (h6) Ties(cfg any) bool { return (h1{}).Ties(cfg) }
+
 func (h6) Describe(cfg any) string {
 	c := cfg.(*H1Cfg)
 	if c.Input != nil {
